@@ -136,7 +136,10 @@ pub fn space_box(name: &str) -> [Comp; 3] {
         _ => panic!("no box for {}", name),
     }
 }
-fn hwb_like(name: &str) -> Option<(usize, usize)> { if name == "Hwb" || name == "Okhwb" { Some((1, 2)) } else { None } }
+/// Hwb / Okhwb document whiteness and blackness as 0..1 each; `is_within_bounds` additionally asks for whiteness + blackness <= 1, but the
+/// property's domain is the documented component range, so the over-specified grays (w + b > 1, e.g. blackness 1 with whiteness > 0)
+/// are part of the lattice
+fn hwb_like(_name: &str) -> Option<(usize, usize)> { None }
 fn space_colours<T: F>(name: &str, small: bool) -> Vec<[T; 3]> {
     let base = name.split(':').next().unwrap();
     let bx = space_box(if name.starts_with("Xyz") { name } else { base });
